@@ -18,7 +18,6 @@ import (
 	"crypto/x509"
 	"errors"
 	"fmt"
-	"os"
 	"time"
 
 	revresult "github.com/notaryproject/notation-core-go/revocation/result"
@@ -32,18 +31,23 @@ import (
 )
 
 type revVariant struct {
-	rev     bool
-	surplus int
-	client  bool
+	rev        bool
+	surplus    int
+	client     bool
+	nilEntries bool // the entries of the vector are nil pointers
+	nilServer  bool // every (non-nil) result holds a nil server result
 }
 
 // the revocation dimension of the configuration matrix: not asked (the statement skips revocation),
 // or asked and answered with chain length + surplus results (the matrix chain has 2 certificates:
-// -2 is the empty answer), through either interface
+// -2 is the empty answer), through either interface; the vector of the right (and of another) length whose entries
+// are nil pointers, and the one whose results hold a nil server result
 var revVariants = []revVariant{
-	{false, 0, false},
-	{true, -2, false}, {true, -1, false}, {true, 0, false}, {true, 1, false}, {true, 2, false},
-	{true, -1, true}, {true, 0, true}, {true, 1, true}, {true, 3, true},
+	{rev: false},
+	{rev: true, surplus: -2}, {rev: true, surplus: -1}, {rev: true}, {rev: true, surplus: 1}, {rev: true, surplus: 2},
+	{rev: true, surplus: -1, client: true}, {rev: true, client: true}, {rev: true, surplus: 1, client: true}, {rev: true, surplus: 3, client: true},
+	{rev: true, nilEntries: true}, {rev: true, client: true, nilEntries: true}, {rev: true, surplus: 1, nilEntries: true},
+	{rev: true, nilServer: true}, {rev: true, client: true, nilServer: true}, {rev: true, client: true, nilEntries: true, nilServer: true},
 }
 
 func okResult(res revresult.Result) *revresult.CertRevocationResult {
@@ -60,6 +64,22 @@ func countedResults(surplus int) func([]*x509.Certificate) ([]*revresult.CertRev
 		out := make([]*revresult.CertRevocationResult, n)
 		for i := range out {
 			out[i] = okResult(revresult.ResultOK)
+		}
+		return out, nil
+	}
+}
+
+// shapedResults: countedResults whose entries are nil pointers (nilEntries), or OK results that hold a nil server
+// result (nilServer).
+func shapedResults(surplus int, nilEntries, nilServer bool) func([]*x509.Certificate) ([]*revresult.CertRevocationResult, error) {
+	return func(chain []*x509.Certificate) ([]*revresult.CertRevocationResult, error) {
+		out, _ := countedResults(surplus)(chain)
+		for i := range out {
+			if nilEntries {
+				out[i] = nil
+			} else if nilServer {
+				out[i].ServerResults = []*revresult.ServerResult{nil, {Result: revresult.ResultOK}, nil}
+			}
 		}
 		return out, nil
 	}
@@ -117,12 +137,10 @@ func revShapes() []revShape {
 			counted(cn.label+" x "+en, cn.n, entries[en])
 		}
 	}
-	// FINDING in the unchanged code (reported, kept out of the default run so that the unchanged tree passes): a result
-	// vector of the right length with NIL entries, or a result whose ServerResults holds a nil entry, is dereferenced
-	// by revocationFinalResult (nil pointer panic in Verify / VerifyBlob). XVERIF_C12_NIL_RESULTS=1 adds these shapes.
-	if os.Getenv("XVERIF_C12_NIL_RESULTS") != "" {
-		out = append(out, nilResultShapes()...)
-	}
+	// a result vector with NIL entries, or a result whose ServerResults holds a nil entry: revocationFinalResult must
+	// read a nil entry as "status unknown" (fail closed) and skip a nil server result - never dereference either
+	// (modelled in the matrix: Input.revNil / revNilServer; sampled here in more shapes)
+	out = append(out, nilResultShapes()...)
 	out = append(out,
 		revShape{"nil slice, no error", func([]*x509.Certificate) ([]*revresult.CertRevocationResult, error) { return nil, nil }},
 		revShape{"results AND an error", func(c []*x509.Certificate) ([]*revresult.CertRevocationResult, error) {
@@ -133,9 +151,33 @@ func revShapes() []revShape {
 }
 
 func nilResultShapes() []revShape {
+	some := func(label string, at func(i, n int) bool) revShape {
+		return revShape{label, func(c []*x509.Certificate) ([]*revresult.CertRevocationResult, error) {
+			r, _ := countedResults(0)(c)
+			for i := range r {
+				if at(i, len(r)) {
+					r[i] = nil
+				}
+			}
+			return r, nil
+		}}
+	}
 	return []revShape{
 		revShape{"chain x nil entries", func(c []*x509.Certificate) ([]*revresult.CertRevocationResult, error) {
 			return make([]*revresult.CertRevocationResult, len(c)), nil
+		}},
+		revShape{"chain+1 x nil entries", func(c []*x509.Certificate) ([]*revresult.CertRevocationResult, error) {
+			return make([]*revresult.CertRevocationResult, len(c)+1), nil
+		}},
+		some("chain x ok, the leaf's entry nil", func(i, n int) bool { return i == 0 }),
+		some("chain x ok, the root's entry nil", func(i, n int) bool { return i == n-1 }),
+		revShape{"chain x revoked with nil server results, the root's entry nil", func(c []*x509.Certificate) ([]*revresult.CertRevocationResult, error) {
+			r := make([]*revresult.CertRevocationResult, len(c))
+			for i := 0; i+1 < len(r); i++ {
+				r[i] = &revresult.CertRevocationResult{Result: revresult.ResultRevoked, RevocationMethod: revresult.RevocationMethodOCSPFallbackCRL,
+					ServerResults: []*revresult.ServerResult{nil, {Result: revresult.ResultRevoked, Error: errors.New("boom"), RevocationMethod: revresult.RevocationMethodOCSP}, nil}}
+			}
+			return r, nil
 		}},
 		revShape{"chain x ok with a nil server result", func(c []*x509.Certificate) ([]*revresult.CertRevocationResult, error) {
 			r, _ := countedResults(0)(c)
